@@ -64,8 +64,8 @@ CLAIMS['C36'] = dict(engine='symx (E4) + rtc (E3) + structural AST contracts', c
          'GroupOp and vacancyThermoKinetics use tolerance equality by design: the equivalence-relation / hash clauses are genuinely violated there and are recorded as known findings with witnesses; any other violation is reported.',
     note='Level is "other" because the property does not hold for two types (known findings); structural patterns that are not recognised are reported undecided, never as violations.')
 
-CLAIMS['C24'] = dict(engine='rtc (E3)', category='exploration',
-    technique='run-time postconditions of StarSet construction/addition/difference against a BFS + brute-force-orbit spec (bounded stand-in); PairState algebra it rests on is proved in C23/C36',
+CLAIMS['C24'] = dict(engine='rtc (E3) + pyframe ownership typing (E2b)', category='exploration',
+    technique='run-time postconditions of StarSet construction/addition/difference against a BFS + brute-force-orbit spec (bounded stand-in); ownership contracts of StarSet.copy / __iadd__ / __add__ on the extracted AST (a copy or sum shares no mutable container with its operands, nested lists are deep-copied: operands stay unchanged, for every history); PairState algebra it rests on is proved in C23/C36',
     text='Bounded: on every catalogue crystal, ranges 1..2 (3 where small), with and without origin states: states equal the BFS-reachable non-zero states, stars are complete orbits, '
          'index lookups agree, s1+s2 equals generate(N1+N2) and leaves its operands unchanged, difference sets contain exactly the endpoint differences.',
     note='Catalogue and ranges are the bound.')
